@@ -78,6 +78,9 @@ class ModelError(Exception):
     pass
 
 
+_SEEN = {}     # entry -> [(case text, result text)] : a few cases per entry, for the extraction cross-check
+
+
 def model_run(entry, cases, timeout=600):
     """Run the extracted model on a list of wire cases; returns the list of decoded results."""
     if not cases:
@@ -92,6 +95,13 @@ def model_run(entry, cases, timeout=600):
         lines.pop()
     if len(lines) != len(cases):
         raise ModelError("model runner: %d results for %d cases" % (len(lines), len(cases)))
+    seen = _SEEN.setdefault(entry, [])
+    if len(seen) < 3:
+        small = sorted(range(len(cases)), key=lambda k: len(lines[k]))[:max(0, 3 - len(seen))]
+        for k in small:
+            t = sx(cases[k])
+            if len(t) < 4000 and len(lines[k]) < 20000:
+                seen.append((t, lines[k]))
     out = []
     for i, l in enumerate(lines):
         if l.startswith("!") or l.strip() == "-999":
@@ -328,3 +338,74 @@ def shrink_list(items, still_fails, max_steps=400):
                 break
             n = min(n * 2, len(items))
     return items
+
+
+# ------------------------------------------------------------------ extraction cross-check
+def _coq_term(o):
+    if isinstance(o, list):
+        return "L [" + "; ".join(_coq_term(x) for x in o) + "]"
+    return "I (%d)%%Z" % o
+
+
+def _parse_coq_sx(t):
+    toks = re.findall(r"L|I|\[|\]|;|\(|\)|-?\d+|%Z", t)
+    pos = 0
+
+    def term():
+        nonlocal pos
+        if toks[pos] == "(":
+            pos += 1; r = term()
+            assert toks[pos] == ")"; pos += 1
+            if pos < len(toks) and toks[pos] == "%Z":
+                pos += 1
+            return r
+        if toks[pos] == "I":
+            pos += 1
+            return term()
+        if toks[pos] == "L":
+            pos += 1
+            assert toks[pos] == "["; pos += 1
+            out = []
+            while toks[pos] != "]":
+                out.append(term())
+                if toks[pos] == ";":
+                    pos += 1
+            pos += 1
+            return out
+        v = int(toks[pos]); pos += 1
+        if pos < len(toks) and toks[pos] == "%Z":
+            pos += 1
+        return v
+    return term()
+
+
+def extraction_crosscheck(chk):
+    """Evaluate a few of this run's cases INSIDE Coq (vm_compute on the Gallina driver) and compare with what the
+    extracted OCaml runner answered: guards against an extraction / glue bug."""
+    n = 0
+    for entry, pairs in sorted(_SEEN.items()):
+        if not pairs:
+            continue
+        src = ["From Coq Require Import ZArith List.", "Import ListNotations.", "From SL Require Import Sx.",
+               "From SL Require drv.Drv_%s." % entry, "Set Printing Width 1000000.", "Set Printing Depth 1000000."]
+        for t, _ in pairs:
+            src.append("Eval vm_compute in (Drv_%s.run (%s))." % (entry, _coq_term(unsx(t))))
+        d = os.path.join(WORK, "xcheck_%d" % os.getpid())
+        os.makedirs(d, exist_ok=True)
+        f = os.path.join(d, "X_%s.v" % entry)
+        open(f, "w").write("\n".join(src) + "\n")
+        p = subprocess.run(["coqc", "-Q", os.path.join(VERIF, "coq/theories"), "SL", f], capture_output=True, text=True, timeout=900)
+        outs = re.findall(r"=\s*(.*?)\n\s*:\s*sx", p.stdout, flags=re.S)
+        for g in os.listdir(d):
+            os.remove(os.path.join(d, g))
+        os.rmdir(d)
+        if p.returncode != 0 or len(outs) != len(pairs):
+            chk.violation("extraction-crosscheck", "could not evaluate entry %s inside Coq: %s" % (entry, (p.stderr or p.stdout)[-300:]),
+                          dict(kind="xcheck", entry=entry), found=False)
+            continue
+        for (t, r), o in zip(pairs, outs):
+            n += 1
+            if _parse_coq_sx(o) != unsx(r):
+                chk.violation("extraction-crosscheck", "the extracted runner and vm_compute disagree on entry %s" % entry,
+                              dict(kind="xcheck", entry=entry, case=t, ocaml=r, coq=o[:2000]), found=False)
+    chk.extra["extraction_crosscheck_cases"] = n
